@@ -1,1 +1,249 @@
-/- C03 — property theorems (stub: not built yet) -/
+/- C03 — Pooled contexts never leak state between requests: theorems about `Model/Pool.lean`.
+   The facts about the real source the model relies on (field list, what reset does to each field, that every
+   serve path assigns Request/Response/router/index/paramCount before a handler runs, that parameters are written
+   only after `paramCount = 0`, that every get has exactly one release and no use after it) are re-proved on the
+   regenerated `Gen/*.lean` in `Tie/C03.lean` on every run. -/
+import Rivaas.Model.Pool
+
+namespace Rivaas.C03
+open Rivaas.Pool
+
+/-- `Sim a c d`: c and d agree on everything a handler can observe, except possibly the fields of `a` that have
+    not been assigned yet (router, index, paramCount — the only ones in which a pooled context may differ from a
+    brand-new one). Parameter slots are compared only below `paramCount`; a nil and an empty map are the same. -/
+structure Sim (a : Assigned) (c d : Ctx) : Prop where
+  request : c.request = d.request
+  response : c.response = d.response
+  handlers : c.handlers = d.handlers
+  version : c.version = d.version
+  routePattern : c.routePattern = d.routePattern
+  acceptHeader : c.acceptHeader = d.acceptHeader
+  acceptSpecs : c.acceptSpecs = d.acceptSpecs
+  arena : c.arena = d.arena
+  aborted : c.aborted = d.aborted
+  errors : c.errors = d.errors
+  params : c.params.getD [] = d.params.getD []
+  router : a.router = true → c.router = d.router
+  index : a.index = true → c.index = d.index
+  countT : a.count = true → c.paramCount = d.paramCount ∧ 0 ≤ c.paramCount ∧
+    ∀ i, i < min c.paramCount.toNat 8 → c.slots i = d.slots i
+  countF : a.count = false → c.paramCount ≤ 0 ∧ d.paramCount = 0
+
+/-- a pooled object is clean when it is indistinguishable from a brand-new context before any assignment -/
+def Clean (c : Ctx) : Prop := Sim {} c brandNew
+
+/-- **reset leaves nothing behind**: whatever a request and its handlers did to the context — every field, any
+    value, more than 8 parameters, a populated Params map, a negative or huge paramCount — after `reset` the object
+    differs from a brand-new context only in `router`, `index`, an empty-instead-of-nil map and parameter slots
+    that no accessor reads. -/
+theorem reset_clean (c : Ctx) : Clean (reset c) := by
+  refine ⟨rfl, rfl, rfl, rfl, rfl, rfl, rfl, rfl, rfl, rfl, ?_, ?_, ?_, ?_, ?_⟩
+  · cases h : c.params <;> simp [reset, brandNew, h]
+  · intro h; cases h
+  · intro h; cases h
+  · intro h; cases h
+  · intro _
+    refine ⟨?_, rfl⟩
+    simp only [reset]
+    split <;> omega
+
+theorem brandNew_clean : Clean brandNew := by
+  refine ⟨rfl, rfl, rfl, rfl, rfl, rfl, rfl, rfl, rfl, rfl, rfl, ?_, ?_, ?_, ?_⟩
+  · intro h; cases h
+  · intro h; cases h
+  · intro h; cases h
+  · intro _; exact ⟨by simp [brandNew], rfl⟩
+
+/-- one preparation step keeps the two contexts in step -/
+theorem lemma_step_sim (a : Assigned) (c d : Ctx) (s : Step) (h : Sim a c d)
+    (hw : ∀ k v, s = Step.writeParam k v → a.count = true) :
+    Sim (a.step s) (s.apply c) (s.apply d) := by
+  cases s with
+  | setRequest n => exact { h with request := rfl }
+  | setResponse n => exact { h with response := rfl }
+  | setHandlers n => exact { h with handlers := rfl }
+  | setRouter n => exact { h with router := fun _ => rfl }
+  | setIndex i => exact { h with index := fun _ => rfl }
+  | setVersion b => exact { h with version := rfl }
+  | setPattern b => exact { h with routePattern := rfl }
+  | zeroCount =>
+    exact { h with
+      countT := fun _ => ⟨rfl, by simp [Step.apply], by intro i hi; simp [Step.apply] at hi⟩
+      countF := fun hf => by simp [Assigned.step] at hf }
+  | writeParam k v =>
+    have hc := hw k v rfl
+    obtain ⟨heq, hpos, hslots⟩ := h.countT hc
+    by_cases hlt : c.paramCount < 8
+    · have hlt' : d.paramCount < 8 := heq ▸ hlt
+      simp only [Step.apply, hlt, hlt', if_true, Assigned.step]
+      refine { h with countT := ?_, countF := ?_ }
+      · intro _
+        refine ⟨by simp [heq], by simp; omega, ?_⟩
+        intro i hi
+        simp only at hi ⊢
+        rw [← heq]
+        by_cases hi' : i = c.paramCount.toNat
+        · simp [hi']
+        · simp only [hi', if_false]
+          apply hslots
+          omega
+      · intro hf; rw [hc] at hf; cases hf
+    · have hlt' : ¬ d.paramCount < 8 := heq ▸ hlt
+      simp only [Step.apply, hlt, hlt', if_false, Assigned.step]
+      exact { h with
+        params := by simp [h.params]
+        countT := fun _ => ⟨heq, hpos, hslots⟩
+        countF := fun hf => by rw [hc] at hf; cases hf }
+
+/-- **a prepared pooled context looks brand-new**: if the preparation of a serve path assigns Request, Response,
+    router, index and paramCount and writes parameters only after `paramCount = 0` (`covers`, established on the
+    extracted skeleton by `Tie/C03.ownership_paths`), then what the first handler observes on a clean pooled object is
+    exactly what it would observe on a brand-new one. -/
+theorem prepare_fresh (steps : List Step) (a : Assigned) (c d : Ctx) (h : Sim a c d) (hc : covers a steps = true) :
+    view (prepare steps c) = view (prepare steps d) := by
+  induction steps generalizing a c d with
+  | nil =>
+    simp only [covers, Bool.and_eq_true] at hc
+    obtain ⟨⟨⟨⟨hr, hi⟩, hcnt⟩, _⟩, _⟩ := hc
+    obtain ⟨heq, _, hslots⟩ := h.countT hcnt
+    simp only [prepare, List.foldl_nil, view]
+    have hv : (List.range (min c.paramCount.toNat 8)).map c.slots = (List.range (min d.paramCount.toNat 8)).map d.slots := by
+      rw [← heq]
+      apply List.map_congr_left
+      intro i hi
+      exact hslots i (by simpa using hi)
+    rw [hv, h.request, h.response, h.handlers, h.router hr, h.index hi, heq, h.params, h.version, h.routePattern,
+      h.acceptHeader, h.acceptSpecs, h.arena, h.aborted, h.errors]
+  | cons s rest ih =>
+    simp only [prepare, List.foldl_cons]
+    cases s with
+    | writeParam k v =>
+      simp only [covers, Bool.and_eq_true] at hc
+      have := lemma_step_sim a c d (.writeParam k v) h (fun _ _ _ => hc.1)
+      exact ih _ _ _ this (by simpa [Assigned.step] using hc.2)
+    | _ =>
+      simp only [covers] at hc
+      exact ih _ _ _ (lemma_step_sim a c d _ h (by intro k v hkv; cases hkv)) hc
+
+/-- the pool invariant: every pooled object is clean, every recorded handler view is the fresh view -/
+def Inv (p : Pool) : Prop := (∀ c ∈ p.free, Clean c) ∧ ∀ v ∈ p.views, v.1 = v.2
+
+/-- serve operations of a history respect the preparation discipline -/
+def _root_.Rivaas.Pool.Op.ok : Op → Prop
+  | .serve _ steps _ => covers {} steps = true
+  | _ => True
+
+theorem lemma_take_clean (p : Pool) (reuse : Option Nat) (hf : ∀ c ∈ p.free, Clean c) :
+    Clean (take p reuse).1 ∧ ∀ c ∈ (take p reuse).2, Clean c := by
+  unfold take
+  cases reuse with
+  | none => exact ⟨brandNew_clean, hf⟩
+  | some k =>
+    simp only
+    cases hk : p.free[k]? with
+    | none => exact ⟨brandNew_clean, hf⟩
+    | some c =>
+      exact ⟨hf c (List.mem_of_getElem? hk), fun x hx => hf x (List.mem_of_mem_eraseIdx hx)⟩
+
+theorem pool_inv_step (p : Pool) (o : Op) (h : Inv p) (ho : o.ok) : Inv (step p o) := by
+  obtain ⟨hf, hv⟩ := h
+  cases o with
+  | serve reuse steps dirty =>
+    obtain ⟨hc, hrest⟩ := lemma_take_clean p reuse hf
+    simp only [step]
+    refine ⟨?_, ?_⟩
+    · intro x hx
+      simp only [List.mem_cons] at hx
+      rcases hx with rfl | hx
+      · exact reset_clean _
+      · exact hrest x hx
+    · intro v hv'
+      simp only [List.mem_append, List.mem_singleton] at hv'
+      rcases hv' with hv' | rfl
+      · exact hv v hv'
+      · exact prepare_fresh steps {} _ _ hc ho
+  | probe reuse dirty =>
+    obtain ⟨_, hrest⟩ := lemma_take_clean p reuse hf
+    simp only [step]
+    refine ⟨?_, hv⟩
+    intro x hx
+    simp only [List.mem_cons] at hx
+    rcases hx with rfl | hx
+    · exact reset_clean _
+    · exact hrest x hx
+  | dropOne k =>
+    exact ⟨fun c hc => hf c (List.mem_of_mem_eraseIdx hc), hv⟩
+
+theorem pool_inv (ops : List Op) (hok : ∀ o ∈ ops, o.ok) : Inv (run {} ops) := by
+  unfold run
+  generalize h0 : ({} : Pool) = p0
+  have hi : Inv p0 := by subst h0; exact ⟨by simp, by simp⟩
+  clear h0
+  induction ops generalizing p0 with
+  | nil => exact hi
+  | cons o os ih =>
+    simp only [List.foldl_cons]
+    exact ih (fun o' ho' => hok o' (by simp [ho'])) _ (pool_inv_step p0 o hi (hok o (by simp)))
+
+/-- **Main theorem.** For every history of requests — any serve path, any handlers dirtying every field in any
+    way, borrowed probe contexts in between, any reuse/drop pattern of sync.Pool — each handler's view of its
+    context equals the view it would have on a brand-new context prepared for the same request: parameters, version,
+    route pattern, abort flag, collected errors and cached negotiation results of other requests are never visible. -/
+theorem fresh_view (ops : List Op) (hok : ∀ o ∈ ops, o.ok) : ∀ v ∈ (run {} ops).views, v.1 = v.2 :=
+  (pool_inv ops hok).2
+
+/-- …and after every request the pooled object is indistinguishable from a brand-new one (clean) -/
+theorem pooled_objects_clean (ops : List Op) (hok : ∀ o ∈ ops, o.ok) : ∀ c ∈ (run {} ops).free, Clean c :=
+  (pool_inv ops hok).1
+
+/-- **a name that is not a parameter of the matched route reads as empty**: `Param` reads the visible slots, then
+    the map; on a prepared clean context both hold exactly the parameters the lookup wrote -/
+def param (v : View) (k : Bytes) : Bytes :=
+  match v.visible.find? (·.1 == k) with
+  | some kv => kv.2
+  | none => match v.mapEntries.find? (·.1 == k) with
+    | some kv => kv.2
+    | none => []
+
+/-! ### non-vacuity and what the theorem excludes -/
+
+/-- the preparation of the tree-traversal path of ServeHTTP for `/d/:id` (as in the skeleton: Request, Response,
+    index, paramCount, router, version, lookup, routePattern, handlers, index) -/
+def stepsTree (req : Nat) (id : Bytes) : List Step :=
+  [.setRequest req, .setResponse req, .setIndex (-1), .zeroCount, .setRouter 1, .setVersion [],
+   .writeParam "id".toList id, .setPattern "/d/:id".toList, .setHandlers 4, .setIndex (-1)]
+
+/-- a static route: no parameters -/
+def stepsStatic (req : Nat) : List Step :=
+  [.setRequest req, .setResponse req, .setHandlers 2, .setRouter 1, .setPattern "/s/a".toList, .setIndex (-1),
+   .zeroCount, .setVersion []]
+
+example : covers {} (stepsTree 1 "42".toList) = true ∧ covers {} (stepsStatic 2) = true := by decide
+
+/-- a handler that dirties every field: ten parameters' worth of slots and a map entry, version, pattern, abort,
+    errors, Accept cache -/
+def dirtyAll (c : Ctx) : Ctx :=
+  { c with paramCount := 8, slots := fun _ => ("secret".toList, "token".toList), params := some [("p9".toList, "x".toList)],
+           version := "v9".toList, routePattern := "/leak".toList, aborted := true, errors := [7],
+           acceptHeader := "text/html".toList, acceptSpecs := 5, arena := 3, index := 99, handlers := 77 }
+
+/-- request 1 matches `/d/:id` and dirties everything; request 2 (static route) reuses the object: the second handler
+    reads no parameter, an empty version, its own pattern, not aborted, no errors -/
+example :
+    (run {} [.serve none (stepsTree 1 "42".toList) dirtyAll, .serve (some 0) (stepsStatic 2) id]).views.map
+      (fun v => (param v.1 "id".toList, v.1.version, v.1.routePattern, v.1.aborted, v.1.errors, v.1.acceptHeader)) =
+      [("42".toList, [], "/d/:id".toList, false, [], []), ([], [], "/s/a".toList, false, [], [])] := by rfl
+
+/-- a `reset` that forgets one field is excluded by the theorem: with `version` left alone the second request of the
+    same history reads the first request's version -/
+def resetForgetsVersion (c : Ctx) : Ctx := { reset c with version := c.version }
+
+theorem forgetful_reset_leaks :
+    (view (prepare [.setRequest 2, .setResponse 2, .setHandlers 2, .setRouter 1, .setIndex (-1), .zeroCount]
+      (resetForgetsVersion (dirtyAll (prepare (stepsTree 1 "42".toList) brandNew))))).version = "v9".toList := by decide
+
+/-- a serve path that writes parameters without `paramCount = 0` first is excluded by `covers` -/
+example : covers {} [.setRequest 1, .setResponse 1, .setRouter 1, .setIndex (-1), .writeParam [] [], .zeroCount] = false := by
+  decide
+
+end Rivaas.C03
